@@ -22,9 +22,16 @@
        delivered, the limit went down by |d|, the parent is unchanged;
      C02_wellformed_value_is_read - conversely every well-formed value is read
        at any such position;
+     C02_mode_switch_accepted / _sound - an explicit mode switch between
+       values (Constructed::set_mode): a caller that reads one value under mode
+       m and the rest under mode m' accepts exactly the inputs that are a
+       value of mode m followed by values of mode m'; each value obeys the
+       grammar of the mode in force when it is read (the value theorems above
+       quantify over the reader's state, mode included);
    together with the per-step rejection rules and window isolation below.
-   By streams only: explicit mode switches inside a closure and the choice of
-   how many values to read (c02.prog, with an independent reference parser). *)
+   By streams only: mode switches inside a nested closure as a statement about
+   the whole input, and the choice of how many values to read (c02.prog, with
+   an independent reference parser). *)
 Require Import BV.Model.Base BV.Model.SrcB BV.Model.Length BV.Model.Tag BV.Model.Content.
 Require Import BV.Proofs.SrcBP BV.Proofs.TagP BV.Proofs.ContentP BV.Proofs.WinP BV.Proofs.GrammarP.
 
@@ -47,6 +54,25 @@ Theorem C02_wellformed_value_is_read : forall m t d, enc m t d ->
     process_next_value c None (rd fuel) (mkSrc (d ++ rest) l None)
     = (Ok (Some t, c), mkSrc rest (lim_sub l (len d)) None).
 Proof. exact (fun m => proj1 (grammar_complete m)). Qed.
+
+(* an explicit mode switch (Constructed::set_mode) between values: the caller reads one value under mode m,
+   switches the decoder to m' and reads the rest - it accepts exactly the inputs that are a value of mode m
+   followed by values of mode m', and delivers those trees *)
+Theorem C02_mode_switch_accepted : forall m m' t d ts ds fuel, enc m t d -> encs m' ts ds ->
+  octets_ok (d ++ ds) = true -> (size t <= fuel)%nat -> (sizes ts <= fuel)%nat ->
+  decode_src m (fun c =>
+      x <- mandatory (process_next_value c None (rd fuel)) ;; let '(v, c1) := x in
+      y <- read_all fuel (mkCons (cst c1) m') ;; let '(vs, c2) := y in ret (v :: vs, c2))
+    (pure_src (d ++ ds) None)
+  = (Ok (t :: ts), pure_src [] None).
+Proof. exact mode_switch_accepted. Qed.
+Theorem C02_mode_switch_sound : forall m m' fuel input t ts s', octets_ok input = true ->
+  decode_src m (fun c =>
+      x <- mandatory (process_next_value c None (rd fuel)) ;; let '(v, c1) := x in
+      y <- read_all fuel (mkCons (cst c1) m') ;; let '(vs, c2) := y in ret (v :: vs, c2))
+    (pure_src input None) = (Ok (t :: ts), s') ->
+  exists d ds, enc m t d /\ encs m' ts ds /\ input = d ++ ds /\ rem s' = [].
+Proof. exact mode_switch_sound. Qed.
 
 Theorem C02_grammar_example :
   encs Ber [TCons T_SEQUENCE [TPrim T_INTEGER [5]; TCons T_SET []]] [48; 7; 2; 1; 5; 49; 128; 0; 0].
@@ -134,3 +160,5 @@ Print Assumptions C02_value_step_partial.
 Print Assumptions C02_eoc_only_terminates_indefinite.
 Print Assumptions C02_form_rules.
 Print Assumptions C02_nested_values_stay_inside_parent.
+Print Assumptions C02_mode_switch_accepted.
+Print Assumptions C02_mode_switch_sound.
